@@ -33,6 +33,13 @@ def _mk(kind, uid):
         # legal FIX 4.4 application message whose repeating groups are NOT in the library's group table
         # (MarketDataRequest: NoMDEntryTypes 267, NoRelatedSym 146)
         return FIXMessage("V", {262: f"md{uid}", 263: "1", 264: "0", 267: [{269: "0"}, {269: "1"}], 146: [{55: "X"}]})
+    if kind == "ngrp":
+        # legal nesting the library's table does not know: NoPositions(702) items with NestedParties(539) inside
+        return FIXMessage("AL", {710: f"pm{uid}", 709: "1", 715: "20240101", 702: [
+            {703: "TQ", 704: "10", 539: [{524: "p1", 525: "D", 538: "1"}]},
+            {703: "TA", 704: "5", 539: [{524: "p2", 525: "D", 538: "2"}]}]})
+    if kind == "egrp":
+        return FIXMessage("D", {11: f"eg{uid}", 55: "X", 453: []})  # a group sent with zero items (453=0)
     if kind == "boom":
         return FIXMessage("D", {11: f"boom{uid}", 55: "X"})
     if kind == "hb":
@@ -100,6 +107,15 @@ def run_case(case):
             elif k == "tr":
                 w.call(c.send_test_req())
                 note_written("session")
+            elif k == "bigtag":
+                # a message with a 19 digit tag: either refused at once or retransmittable later
+                try:
+                    from asyncfix import FIXMessage as _FM
+                    r = w.send(_FM("D", {11: f"big{uid}", 55: "X", 10 ** 18: "v"}))
+                except Exception:
+                    r = ("exc", None)
+                if num_out(c) != n_before:
+                    note_written("app")
             elif k == "jump":
                 # the application moves the outbound counter far ahead (Journaler.set_seq_num): a long run of numbers
                 # that were never sent - longer than any page a range query might be read in
@@ -122,7 +138,7 @@ def run_case(case):
                     return {"signature": "harness|relogon_failed", "clause": "harness", "detail": {"state": c.connection_state.name}, "replay": {"case": case}}
             else:
                 w.send(_mk(k, uid))
-                note_written({"app": "app", "grp": "app", "pdn": "app", "dec": "declined", "hb": "session", "ugrp": "app", "boom": "declined"}[k])
+                note_written({"app": "app", "grp": "app", "pdn": "app", "dec": "declined", "hb": "session", "ugrp": "app", "boom": "declined", "ngrp": "app", "egrp": "app"}[k])
         if awaiting:
             w.advance(1.0)
             w.peer("D", w.peer_seq + 2, [(11, "early")])
@@ -333,7 +349,8 @@ def cases(quick):
                             for p2 in red:
                                 out.append((role, slots, awaiting, [p1, p2]))
     # application messages with repeating groups unknown to the library's table; a should_replay callback that raises
-    for slots in (("app", "ugrp", "app"), ("ugrp", "app", "hb"), ("app", "boom", "app"), ("boom", "app", "grp")):
+    for slots in (("app", "ugrp", "app"), ("ugrp", "app", "hb"), ("app", "boom", "app"), ("boom", "app", "grp"),
+                  ("app", "ngrp", "app"), ("ngrp", "egrp", "hb"), ("egrp", "app", "ngrp"), ("app", "bigtag", "app")):
         last = 1 + len(slots)
         for p in [(1, 0), (2, 0), (2, last - 1), (3, 3), (last, 0), (1, 2)]:
             out.append(("acceptor", slots, False, [p]))
